@@ -65,6 +65,13 @@ CHECKS = {
         text="All 16 (numInGroup, blockLength) type pairs x N in 0..3 x wire BL in {0,1,4,6} x iterator expression chains of depth 2 (quick) / 3 (thorough), nested forward ranges, resize/clear frame, and header-only boundary vectors near 2^8..2^64; random iterator walks validated by the trace spec.",
         note="Huge-header vectors form addresses beyond the buffer (never dereferenced; compared as integers). One known finding: difference_type = make_signed<size_type> (public typedef, not fixed).",
         design="5/C12"),
+    "C07": dict(
+        category="exploration",
+        technique="TLC model checking of Names.tla / LiteralMatrix.tla (mangling discipline clash-free, public path = schema name) + every TLC-enumerated schema compiled by the real sbeppc, every generated header compiled alone, and a generated touch-everything TU naming every public path",
+        text="All assignments of a pool of clash-prone identifiers to the slots of small schema skeletons (1149 legal assignments; seeded sample in quick) plus the literal matrix (11 primitives x presence x explicit/boundary values x positions, enums/sets over every encoding, strings); "
+             "compilers' exit status is the observation (quick: g++ c++11, clang++ c++20; thorough: g++/clang++14/clang++16 x c++11..2b).",
+        note="'Compiles' is decided by the installed compilers (no MSVC). Known findings: schema names equal to identifiers the generated code uses itself (template parameters, unqualified internals, C macros, value/value_type) - recorded, not repaired.",
+        design="5/C07"),
     "C08": dict(
         category="model_checking",
         technique="TLC model checking of Rules.tla/SchemaGen.tla (Break breaks the named rule, Boundary stays valid, Valid => NoOverlap /\\ MembersInsideBlock) + every TLC-generated schema mutant run through the real sbeppc",
